@@ -14,7 +14,10 @@ pub struct C32;
 pub static P: C32 = C32;
 
 /// HasSubtype edges (parent, child) of the DataType tree used; same table as `parentDT` in the model
-const DT_EDGES: [(u32, u32); 16] = [
+const DT_EDGES: [(u32, u32); 19] = [
+    (24, 17),
+    (24, 20),
+    (24, 21),
     (24, 1),
     (24, 12),
     (24, 15),
@@ -32,7 +35,7 @@ const DT_EDGES: [(u32, u32); 16] = [
     (28, 7),
     (28, 9),
 ];
-const DTS: [u32; 17] = [1, 2, 3, 4, 5, 6, 7, 8, 9, 10, 11, 12, 15, 24, 26, 27, 28];
+const DTS: [u32; 20] = [1, 2, 3, 4, 5, 6, 7, 8, 9, 10, 11, 12, 15, 17, 20, 21, 24, 26, 27, 28];
 
 /// reference representation of values (mirrors the token syntax, not the model)
 #[derive(Clone, Debug, PartialEq)]
@@ -40,6 +43,9 @@ enum E {
     Num(u32, i128),
     Str(Option<Vec<u8>>),
     BStr(Option<Vec<u8>>),
+    NodeId(u32),
+    QName,
+    LText,
 }
 #[derive(Clone, Debug, PartialEq)]
 enum V {
@@ -53,6 +59,9 @@ fn e_ty(e: &E) -> u32 {
         E::Num(t, _) => *t,
         E::Str(_) => 12,
         E::BStr(_) => 15,
+        E::NodeId(_) => 17,
+        E::QName => 20,
+        E::LText => 21,
     }
 }
 
@@ -76,6 +85,15 @@ fn parse_e(s: &str) -> Option<E> {
         parse_bytes(r).map(E::Str)
     } else if let Some(r) = s.strip_prefix('x') {
         parse_bytes(r).map(E::BStr)
+    } else if let Some(r) = s.strip_prefix('N') {
+        if r.starts_with('+') {
+            return None;
+        }
+        r.parse::<u32>().ok().map(E::NodeId)
+    } else if s == "Q" {
+        Some(E::QName)
+    } else if s == "L" {
+        Some(E::LText)
     } else {
         None
     }
@@ -110,6 +128,9 @@ fn show_e(e: &E) -> String {
         E::Num(t, x) => format!("i{}:{}", t, x),
         E::Str(b) => format!("s{}", show_bytes(b)),
         E::BStr(b) => format!("x{}", show_bytes(b)),
+        E::NodeId(n) => format!("N{}", n),
+        E::QName => "Q".to_string(),
+        E::LText => "L".to_string(),
     }
 }
 
@@ -139,6 +160,9 @@ fn to_scalar(e: &E) -> Option<Variant> {
         E::Str(Some(b)) => Variant::String(UAString::from(String::from_utf8(b.clone()).ok()?)),
         E::BStr(None) => Variant::ByteString(ByteString::null()),
         E::BStr(Some(b)) => Variant::ByteString(ByteString::from(b.clone())),
+        E::NodeId(n) => Variant::NodeId(Box::new(NodeId::new(0, *n))),
+        E::QName => Variant::QualifiedName(Box::new(QualifiedName::new(0, "q"))),
+        E::LText => Variant::LocalizedText(Box::new(LocalizedText::new("", "l"))),
     })
 }
 
@@ -157,6 +181,9 @@ fn vtype(t: u32) -> Option<VariantTypeId> {
         11 => VariantTypeId::Double,
         12 => VariantTypeId::String,
         15 => VariantTypeId::ByteString,
+        17 => VariantTypeId::NodeId,
+        20 => VariantTypeId::QualifiedName,
+        21 => VariantTypeId::LocalizedText,
         _ => return None,
     })
 }
@@ -192,6 +219,12 @@ fn from_scalar(v: &Variant) -> Option<E> {
         Variant::Double(x) => E::Num(11, x.to_bits() as i128),
         Variant::String(s) => E::Str(s.value().as_ref().map(|s| s.as_bytes().to_vec())),
         Variant::ByteString(b) => E::BStr(b.value.clone()),
+        Variant::NodeId(n) => match n.identifier {
+            Identifier::Numeric(x) if n.namespace == 0 => E::NodeId(x),
+            _ => return None,
+        },
+        Variant::QualifiedName(_) => E::QName,
+        Variant::LocalizedText(_) => E::LText,
         _ => return None,
     })
 }
@@ -211,6 +244,9 @@ fn type_num(t: VariantTypeId) -> u32 {
         VariantTypeId::Double => 11,
         VariantTypeId::String => 12,
         VariantTypeId::ByteString => 15,
+        VariantTypeId::NodeId => 17,
+        VariantTypeId::QualifiedName => 20,
+        VariantTypeId::LocalizedText => 21,
         _ => 999,
     }
 }
@@ -311,12 +347,177 @@ fn rand_range(rng: &mut Rng) -> String {
     format!("s{}", hex(s.as_bytes()))
 }
 
+fn hexs(t: &str) -> String {
+    format!("s{}", hex(t.as_bytes()))
+}
+
+/// every node class × write mask configuration × attribute id × index-range shape (Read) and
+/// × index-range shape × value type (Write)
+fn surface_cases(out: &mut Vec<String>) {
+    let read_ranges = ["sn".to_string(), "s".to_string(), hexs("1"), hexs("0:1"), hexs("1,2"), hexs(":")];
+    let values = ["i1:1", "i3:7", "i6:5", "i7:3", "i11:0", "N6", "Q", "L", "a7:[i7:1,i7:2]", "a7:[]", "a6:[i6:1]", "s61", "n", "-"];
+    for cls in [2u32, 1, 4, 8, 16, 32, 64, 128] {
+        for mask in [None, Some(0x3ff_ffffu32), Some(0x155_5555u32), Some(0x2aa_aaaau32)] {
+            out.push("reset".to_string());
+            if cls == 2 {
+                out.push("var 1 6 1 3 a6:[i6:1,i6:2,i6:3]".to_string());
+            } else {
+                out.push(format!("node 1 {}", cls));
+            }
+            if let Some(m) = mask {
+                out.push(format!("wmask 1 {}", m));
+            }
+            for attr in (0u32..=28).chain([255u32, u32::MAX]) {
+                for r in &read_ranges {
+                    out.push(format!("read 1 {} {}", attr, r));
+                }
+                for v in values {
+                    out.push(format!("write 1 {} sn {}", attr, v));
+                    // a write may have changed what is writable / readable: restore, and look again
+                    if attr == 6 {
+                        if let Some(m) = mask {
+                            out.push(format!("wmask 1 {}", m));
+                        }
+                    }
+                    if attr == 18 {
+                        out.push("read 1 13 sn".to_string());
+                        out.push("write 1 13 sn a6:[i6:4,i6:5,i6:6]".to_string());
+                        out.push("write 1 18 sn i3:3".to_string());
+                    }
+                    if attr == 14 || attr == 15 {
+                        out.push("write 1 13 sn a6:[i6:7]".to_string());
+                        out.push("write 1 13 sn x0102".to_string());
+                        out.push("write 1 14 sn N6".to_string());
+                        out.push("write 1 15 sn i6:1".to_string());
+                    }
+                }
+                for r in ["s".to_string(), hexs("1"), hexs(":")] {
+                    out.push(format!("write 1 {} {} i6:5", attr, r));
+                    out.push(format!("write 1 {} {} -", attr, r));
+                }
+                out.push(format!("read 1 {} sn", attr));
+            }
+        }
+    }
+    // access level × read / write of the value, and a change of the access level in between
+    for access in 0u32..=4 {
+        out.push("reset".to_string());
+        out.push(format!("var 1 6 -1 {} i6:1", access));
+        out.push("wmask 1 65536".to_string()); // UserAccessLevel writable
+        for a2 in [0u32, 1, 2, 3, 255] {
+            out.push("read 1 13 sn".to_string());
+            out.push("write 1 13 sn i6:2".to_string());
+            out.push("read 1 18 sn".to_string());
+            out.push(format!("write 1 18 sn i3:{}", a2));
+            out.push("read 1 13 sn".to_string());
+            out.push("write 1 13 sn i6:3".to_string());
+        }
+    }
+}
+
+/// every value shape × every index-range shape at its boundaries, Read and range Write
+fn value_cases(out: &mut Vec<String>) {
+    // (data type, rank, value token, length of the addressed sequence)
+    let vals: [(u32, i32, &str, usize); 19] = [
+        (24, -1, "n", 0),
+        (6, -1, "i6:5", 0),
+        (12, -1, "s68c3a96c6c6f", 6), // héllo
+        (12, -1, "se282ac61f09f9880", 8), // €a😀
+        (12, -1, "sn", 0),
+        (12, -1, "s", 0),
+        (15, -1, "x0a0b0c0d", 4),
+        (15, -1, "xn", 0),
+        (15, -1, "x", 0),
+        (6, 1, "a6:[i6:1,i6:2,i6:3,i6:4]", 4),
+        (6, 1, "a6:[]", 0),
+        (12, 1, "a12:[s61,sn,sc3a9]", 3),
+        (3, 1, "a3:[i3:1,i3:2,i3:3]", 3),
+        (27, 1, "a4:[i4:1,i4:2,i4:3]", 3),
+        (24, -1, "N6", 0),
+        (24, 1, "a17:[N1,N2]", 2),
+        (3, 1, "x7c966a", 3),  // ByteString given to a Byte array variable: stored as the array
+        (3, -2, "xn", 0),
+        (3, -1, "x7c966a", 3), // scalar Byte variable: stays a ByteString
+    ];
+    for (dt, rank, v, len) in vals {
+        out.push("reset".to_string());
+        out.push(format!("var 1 {} {} 3 {}", dt, rank, v));
+        let l = len as i64;
+        let mut ranges: Vec<String> = vec!["sn".into(), "s".into()];
+        for i in [0, 1, 2, l - 1, l, l + 1] {
+            if i >= 0 {
+                ranges.push(hexs(&i.to_string()));
+            }
+        }
+        for (a, bb) in [(0, 1), (1, 2), (1, 3), (2, 3), (0, l - 1), (0, l), (l - 2, l - 1), (l - 1, l), (l, l + 1), (l + 1, l + 2), (0, 99), (2, 2), (3, 1)] {
+            if a >= 0 && bb >= 0 {
+                ranges.push(hexs(&format!("{}:{}", a, bb)));
+            }
+        }
+        ranges.push(hexs("0,1"));
+        ranges.push(hexs("x"));
+        ranges.sort();
+        ranges.dedup();
+        for r in &ranges {
+            out.push(format!("read 1 13 {}", r));
+        }
+        // range writes with sources of length 0, 1, 2, 5 of the same / another type, scalars, byte strings
+        let elem = v.strip_prefix('a').and_then(|x| x.split(':').next()).unwrap_or("6");
+        let same = |k: usize| -> String {
+            let e = match elem {
+                "12" => "s7a",
+                "17" => "N9",
+                "3" => "i3:9",
+                "4" => "i4:9",
+                _ => "i6:9",
+            };
+            format!("a{}:[{}]", elem, vec![e; k].join(","))
+        };
+        let others = [same(1), same(2), same(5), same(0), "a7:[i7:1,i7:2]".to_string(), "i6:9".to_string(), "x0909".to_string(), "n".to_string()];
+        for r in &ranges {
+            if r == "s" || r == "sn" {
+                continue; // whole-value writes would replace the value under test (covered by surface_cases)
+            }
+            for o in &others {
+                out.push(format!("write 1 13 {} {}", r, o));
+            }
+            out.push(format!("read 1 13 {}", r));
+            out.push("read 1 13 sn".to_string());
+        }
+        if dt == 3 {
+            // null / empty ByteString written to a Byte array (whole value and range)
+            for r in ["sn".to_string(), hexs("0"), hexs("0:1")] {
+                out.push(format!("write 1 13 {} xn", r));
+                out.push(format!("write 1 13 {} x", r));
+                out.push("read 1 13 sn".to_string());
+            }
+            out.push(format!("write 1 13 sn {}", same(3)));
+        }
+        // the length changes through whole-value writes; the same ranges then hit other boundaries
+        for k in [5usize, 1, 2] {
+            out.push(format!("write 1 13 sn {}", same(k)));
+            for r in &ranges {
+                out.push(format!("read 1 13 {}", r));
+                if r != "s" && r != "sn" {
+                    out.push(format!("write 1 13 {} {}", r, same(2)));
+                    out.push(format!("write 1 13 {} x0708", r));
+                    out.push(format!("write 1 13 {} a7:[i7:1]", r));
+                }
+            }
+            out.push("read 1 13 sn".to_string());
+        }
+    }
+}
+
 impl Prop for C32 {
     fn id(&self) -> &'static str {
         "C32"
     }
 
     fn gen(&self, rng: &mut Rng, n: usize, _tier: Tier, out: &mut Vec<String>) {
+        // systematic part (independent of n and of the seed): the whole API surface once
+        surface_cases(out);
+        value_cases(out);
         for _ in 0..n {
             out.push("reset".to_string());
             let nv = rng.range(1, 4) as u32;
@@ -364,6 +565,7 @@ struct RefVar {
     rank: i64,
     access: u32,
     value: V,
+    mask: Option<u32>,
 }
 
 struct R {
@@ -371,6 +573,8 @@ struct R {
     session: Arc<RwLock<Session>>,
     /// reference store, written from the property text
     vars: HashMap<u32, RefVar>,
+    /// nodes of other classes: class and write mask
+    others: HashMap<u32, (u32, Option<u32>)>,
 }
 
 fn node_id(n: u32) -> NodeId {
@@ -464,6 +668,7 @@ impl R {
             address_space: Arc::new(RwLock::new(a)),
             session: Arc::new(RwLock::new(Session::new(fx.server_state.clone()))),
             vars: HashMap::new(),
+            others: HashMap::new(),
         }
     }
 
@@ -490,6 +695,39 @@ impl R {
     }
 }
 
+/// WriteMask bit of an attribute id (OPC UA Part 3, table "Bit mask for WriteMask")
+fn mask_bit(attr: u32) -> Option<u32> {
+    Some(match attr {
+        17 => 0,
+        16 => 1,
+        3 => 2,
+        11 => 3,
+        14 => 4,
+        5 => 5,
+        4 => 6,
+        12 => 7,
+        21 => 8,
+        20 => 9,
+        10 => 10,
+        8 => 11,
+        19 => 12,
+        2 => 13,
+        1 => 14,
+        9 => 15,
+        18 => 16,
+        22 => 17,
+        7 => 18,
+        15 => 19,
+        6 => 20,
+        13 => 21,
+        23 => 22,
+        24 => 23,
+        26 => 24,
+        27 => 25,
+        _ => return None,
+    })
+}
+
 fn range_str(tok: &str) -> Option<UAString> {
     let r = tok.strip_prefix('s')?;
     match parse_bytes(r)? {
@@ -511,7 +749,7 @@ impl Runner for R {
                     return bad();
                 }
                 let Some(variant) = to_variant(&v) else { return bad() };
-                if self.vars.contains_key(&id) {
+                if self.vars.contains_key(&id) || self.others.contains_key(&id) {
                     return ("ok 0".to_string(), Verdict::Ok);
                 }
                 let name = format!("v{}", id);
@@ -523,8 +761,55 @@ impl Runner for R {
                     .value(variant)
                     .build();
                 let ok = self.address_space.write().insert(var, None::<&[(&NodeId, &NodeId, ReferenceDirection)]>);
-                self.vars.insert(id, RefVar { dt, rank, access, value: v });
+                let v = match (&v, as_bytes(&v)) {
+                    (V::One(E::BStr(_)), Some(bs)) if dt == 3 && [-2, -3, 1].contains(&rank) => V::Arr(3, bs.iter().map(|x| E::Num(3, *x as i128)).collect()),
+                    _ => v,
+                };
+                self.vars.insert(id, RefVar { dt, rank, access, value: v, mask: None });
                 (format!("ok {}", b(ok)), self.check_stored(id, "read_after_write", "create"))
+            }
+            ["node", id, cls] => {
+                let (Ok(id), Ok(cls)) = (id.parse::<u32>(), cls.parse::<u32>()) else { return bad() };
+                if id == 0 || ![1, 4, 8, 16, 32, 64, 128].contains(&cls) {
+                    return bad();
+                }
+                if self.vars.contains_key(&id) || self.others.contains_key(&id) {
+                    return ("ok 0".to_string(), Verdict::Ok);
+                }
+                let nid = node_id(id);
+                let name = format!("n{}", id);
+                let node: NodeType = match cls {
+                    1 => Object::new(&nid, name.as_str(), name.as_str(), EventNotifier::empty()).into(),
+                    4 => Method::new(&nid, name.as_str(), name.as_str(), true, true).into(),
+                    8 => ObjectType::new(&nid, name.as_str(), name.as_str(), false).into(),
+                    16 => VariableType::new(&nid, name.as_str(), name.as_str(), DataTypeId::Int32.into(), false, -1).into(),
+                    32 => ReferenceType::new(&nid, name.as_str(), name.as_str(), None, false, false).into(),
+                    64 => DataType::new(&nid, name.as_str(), name.as_str(), false).into(),
+                    _ => View::new(&nid, name.as_str(), name.as_str(), EventNotifier::empty(), true).into(),
+                };
+                let ok = self.address_space.write().insert(node, None::<&[(&NodeId, &NodeId, ReferenceDirection)]>);
+                self.others.insert(id, (cls, None));
+                (format!("ok {}", b(ok)), Verdict::Ok)
+            }
+            ["wmask", id, m] => {
+                let (Ok(id), Ok(m)) = (id.parse::<u32>(), m.parse::<u32>()) else { return bad() };
+                let found = {
+                    let mut a = self.address_space.write();
+                    match a.find_node_mut(&node_id(id)) {
+                        Some(n) => {
+                            n.as_mut_node().set_write_mask(WriteMask::from_bits_truncate(m));
+                            true
+                        }
+                        None => false,
+                    }
+                };
+                if let Some(v) = self.vars.get_mut(&id) {
+                    v.mask = Some(m);
+                }
+                if let Some(o) = self.others.get_mut(&id) {
+                    o.1 = Some(m);
+                }
+                (format!("ok {}", b(found)), Verdict::Ok)
             }
             ["read", id, attr, range] => {
                 let (Ok(id), Ok(attr)) = (id.parse::<u32>(), attr.parse::<u32>()) else { return bad() };
@@ -632,14 +917,14 @@ impl Runner for R {
                         }
                         // a successful write is observed: update the reference store
                         let byte_array = rv.dt == 3 && [-2, -3, 1].contains(&rv.rank);
+                        // Part 4: a ByteString written to a one-dimensional Byte array is that array
+                        let norm: V = match (v, as_bytes(v)) {
+                            (V::One(E::BStr(_)), Some(bs)) if byte_array => V::Arr(3, bs.iter().map(|x| E::Num(3, *x as i128)).collect()),
+                            _ => v.clone(),
+                        };
+                        let v = &norm;
                         match (ref_range(&rs), &mut rv.value, v) {
-                            (Some(Rg::None), cur, v) => {
-                                // Part 4: a ByteString written to a one-dimensional Byte array is that array
-                                *cur = match (v, as_bytes(v)) {
-                                    (V::One(E::BStr(_)), Some(bs)) if byte_array => V::Arr(3, bs.iter().map(|x| E::Num(3, *x as i128)).collect()),
-                                    _ => v.clone(),
-                                }
-                            }
+                            (Some(Rg::None), cur, v) => *cur = v.clone(),
                             (Some(Rg::Index(i)), V::Arr(_, es), V::Arr(_, os)) if i < es.len() && !os.is_empty() => es[i] = os[0].clone(),
                             (Some(Rg::Range(a, bb)), V::Arr(_, es), V::Arr(_, os)) if a < es.len() => {
                                 for (k, o) in os.iter().enumerate() {
@@ -661,7 +946,36 @@ impl Runner for R {
                         verdict = self.check_stored(id, "read_after_write", class);
                     }
                 } else if status.is_good() {
-                    verdict = Verdict::fail("write_requires_access", class, "non-Value attribute of a variable without write mask written");
+                    // any other attribute: writable only through the node's write mask (Part 3, 5.2.7)
+                    let mask = self.vars.get(&id).map(|v| v.mask).or(self.others.get(&id).map(|o| o.1)).flatten();
+                    let allowed = match (mask, mask_bit(attr)) {
+                        (Some(m), Some(bit)) => m >> bit & 1 == 1,
+                        _ => false,
+                    };
+                    if !allowed || attr == 13 {
+                        verdict = Verdict::fail("write_requires_access", class, format!("attribute {} written although the write mask {:?} does not allow it", attr, mask));
+                    } else {
+                        // writes that change what later reads / writes are allowed to do
+                        if let (Some(rv), Some(V::One(e))) = (self.vars.get_mut(&id), val.as_ref()) {
+                            match (attr, e) {
+                                (18, E::Num(3, x)) => rv.access = *x as u32,
+                                (14, E::NodeId(n)) => rv.dt = *n,
+                                (15, E::Num(6, x)) => rv.rank = *x as i64,
+                                _ => {}
+                            }
+                        }
+                        if let Some(V::One(E::Num(7, x))) = val.as_ref() {
+                            if attr == 6 {
+                                if let Some(rv) = self.vars.get_mut(&id) {
+                                    rv.mask = Some(*x as u32);
+                                }
+                                if let Some(o) = self.others.get_mut(&id) {
+                                    o.1 = Some(*x as u32);
+                                }
+                            }
+                        }
+                        verdict = self.check_stored(id, "rejected_write_is_noop", class);
+                    }
                 } else {
                     // a rejected write leaves the value unchanged
                     verdict = self.check_stored(id, "rejected_write_is_noop", class);
